@@ -25,6 +25,7 @@ def main():
         with open(a.replay) as f:
             cex = json.load(f)
         return mod.replay(cex)
+    os.environ["VERIF_TIER_EFFECTIVE"] = a.tier
     chk = Check(a.pid.upper(), a.tier, seed)
     chk.only = a.only
     try:
